@@ -11,6 +11,10 @@ UNIT = Unit(
     lemmas=["sums.rs", "iterlem.rs", "coinsview.rs", "depswap.rs"],
     items=[
         Raw("use num::{rational::Ratio, BigInt, BigRational, BigUint};"),
+        Fn(D, "to_canonical", impl="PoolKey", home="C15", implicit_props=("C09", "C15"), **pk_to_canonical(), uses="group_core_axioms, axiom_bytes_lt, axiom_denom_bytes_inj"),
+        Fn(D, "new", impl="PoolKey", home="C15", implicit_props=("C09", "C15"), **pk_new_c(), uses="group_core_axioms, axiom_bytes_lt, axiom_denom_bytes_inj"),
+        Fn(D, "left", impl="PoolKey", home="C15", implicit_props=("C09",), **pk_side("left")),
+        Fn(D, "right", impl="PoolKey", home="C15", implicit_props=("C09",), **pk_side("right")),
         Fn(D, "new_empty", impl="PoolState", home="C15", implicit_props=("C09", "C15"), **ps_new_empty()),
         Fn(D, "swap_many", impl="PoolState", home="C15", implicit_props=("C09", "C15", "C16"), **ps_swap_many(),
            injects=[Inject(("after_let", "exchange_rate"), """let ghost l = self.lefts as int; let ghost rr = self.rights as int;
